@@ -1,4 +1,5 @@
 import ShootVerif.Drive.Loop
 import ShootVerif.Drive.Cli
+import ShootVerif.Drive.Phases
 open ShootVerif.Drive
-def main : IO Unit := runDriver [("cli16", cli16Case)]
+def main : IO Unit := runDriver [("cli16", cli16Case), ("cli18", cli18Case)]
